@@ -765,11 +765,27 @@ pub fn stack(ctx: &Ctx) -> Report {
     let mut rep = Report::new();
     let exe = std::env::current_exe().expect("exe");
     let depths: Vec<usize> = if ctx.tiny { vec![10, 100] } else if ctx.quick() { vec![10, 100, 1000, 3000, 10_000, 50_000, 200_000] } else { vec![10, 100, 300, 1000, 2000, 3000, 5000, 10_000, 30_000, 100_000, 200_000, 250_000] };
+    let mut wedged = 0;
     for shape in ["seq", "ctx", "set"] {
         let mut first_fail: Option<(usize, String)> = None;
         for &d in &depths {
-            let out = std::process::Command::new(&exe).args(["--child", "c11-stack", &d.to_string(), shape]).output();
+            // (a probe that is still running after a minute is killed: what keeps it busy is for the decoder lane
+            // to name; here it only means "no stack verdict for this depth")
+            let out = std::process::Command::new("timeout").args(["-s", "KILL", "60"]).arg(&exe).args(["--child", "c11-stack", &d.to_string(), shape]).output();
             rep.count("stack_probes", 1);
+            if let Ok(o) = &out {
+                use std::os::unix::process::ExitStatusExt;
+                if o.status.code() == Some(137) || (o.status.signal() == Some(9)) {
+                    wedged += 1;
+                    rep.inconclusive(format!("stack probe depth {} shape {} was still running after 60 s and was killed", d, shape));
+                    rep.case(None);
+                    if wedged >= 2 {
+                        rep.inconclusive("two stack probes in a row did not end: the remaining probes were skipped".to_string());
+                        return rep;
+                    }
+                    continue;
+                }
+            }
             match out {
                 Err(e) => {
                     rep.inconclusive(format!("cannot spawn child: {}", e));
